@@ -121,7 +121,7 @@ NewBatch ==
     /\ open /\ ~ro /\ pc.k = "idle" /\ nb < MaxBatches
     /\ nb' = nb + 1
     /\ UNCHANGED <<files, cur, open, ro, pc, snaps, rm, synced, errs, lastRound, pend, faults, crashes, reverts>>
-    /\ Log("NewBatch", [n |-> nb + 1])
+    /\ Log("NewBatch", [n |-> nb + 1, ops |-> [k \in 1..NKeys |-> BatchOp(nb + 1, k)]])
 
 -----------------------------------------------------------------------------
 (* A persistence round (Store.persist / compactMaybe / compact).
@@ -357,7 +357,9 @@ Crash ==
                       /\ img[f][3] => (img[f][2] >= 1 /\ ~Recs(f)[img[f][2]].sy)      \* only an unsynced record is torn
                       /\ NoSync => (img[f][2] = Len(Recs(f)))                         \* process kill: nothing is lost
             /\ Recover(fs, FALSE, FALSE)
-            /\ Log("Crash", [img |-> [f \in 1..MaxFiles |-> [n |-> img[f][2], torn |-> img[f][3]]]])
+            /\ Log("Crash", [img |-> [f \in 1..MaxFiles |-> [n |-> img[f][2], torn |-> img[f][3]]],
+                              k |-> pc.k, s |-> pc.s,
+                              pre |-> [j \in 1..(nb + 1) |-> ContentUpto(j - 1)]])
 
 Reopen(readOnly) ==
     /\ ~open /\ (readOnly => AllowReadOnly)
